@@ -118,7 +118,7 @@ def search(rng, res):
 def requests(case):
 	if case[0] == 't':
 		imf, r850, asc, year = forms(case[1])
-		return ['c %d' % case[1], 'p %s' % imf.hex(), 'p %s' % r850.hex(), 'p %s' % asc.hex()]
+		return ['c %d' % case[1], 'p %s' % imf.hex(), 'p %s' % r850.hex(), 'p %s' % asc.hex(), 'h %s' % imf.hex(), 'h %s' % r850.hex(), 'h %s' % asc.hex()]
 	if case[0] == 'cmp':
 		imf, r850, asc, year = forms(case[2])
 		return ['cmp %d %d %s %s %s' % (case[1], case[2], imf.hex(), r850.hex() if 1970 <= year <= 2068 else '-', asc.hex())]
@@ -168,7 +168,7 @@ def impl_lines(case):
 	res = _cache[case][('UTC', 'C')]
 	if case[0] == 't':
 		imf, r850, asc, year = forms(case[1])
-		return ['%s %s %s' % (res[0] if not res[0].startswith('err') else res[0], hx(r850), hx(asc))] + [r if r.startswith('ok') else 'err InvalidDate' if r == 'err InvalidDate' else r for r in res[1:]]
+		return ['%s %s %s' % (res[0] if not res[0].startswith('err') else res[0], hx(r850), hx(asc))] + [r if r.startswith('ok') else 'err InvalidDate' if r == 'err InvalidDate' else r for r in res[1:4]]
 	return [r for r in res]
 
 
@@ -192,6 +192,12 @@ def oracle(case):
 			bad.append('RFC 850 form parsed to %s' % base[2])
 		if base[3] != 'ok %d' % t:
 			bad.append('asctime form parsed to %s' % base[3])
+		# the same three forms as the value of Last-Modified / If-Modified-Since / If-Unmodified-Since
+		for i, form in ((4, 'IMF-fixdate'), (5, 'RFC 850 form'), (6, 'asctime form')):
+			if form == 'RFC 850 form' and not 1970 <= year <= 2068:
+				continue
+			if base[i] != ('%d' % t + ' ') * 2 + '%d' % t:
+				bad.append('%s as a header field value (Last-Modified, If-Modified-Since, If-Unmodified-Since) gives %s' % (form, base[i]))
 		if bad:
 			return {'what': '; '.join(bad), 'instant': t, 'finding': None}
 	if case[0] == 'cmp':
